@@ -155,14 +155,6 @@ func run(c Case) (v vkit.Verdict) {
 	return v
 }
 
-// sphereTMercNearEquator recognises known finding `sphere_tmerc_near_equator`: the spherical transverse Mercator
-// inverse computes the latitude as asin(sqrt((1-cos^2 t)/(1+g^2))), which cancels catastrophically within about
-// 1e-4 degrees of the equator (absolute error up to ~1e-8 rad), exactly as proj4js does.
-func sphereTMercNearEquator(c Case) bool {
-	return (c.Dst.Proj == "tmerc" || c.Dst.Proj == "utm") && c.Dst.EllpsKind == "name" && c.Dst.Ellps == "sphere" &&
-		c.Dst.DatumKind != "name" && math.Abs(c.Lat) < 1e-4
-}
-
 func TestProp(t *testing.T) {
 	vkit.Main(t, vkit.Spec[Case]{
 		ID: "C08",
@@ -176,6 +168,5 @@ func TestProp(t *testing.T) {
 		Assumptions: []string{"explicit +towgs84 terms are kept small (<=100 m, <=1 arcsec, <=5 ppm) in this check; large shifts are checked differentially against proj4js in C09"},
 		Gen:         gen,
 		Run:         run,
-		Known:       map[string]func(Case) bool{"sphere_tmerc_near_equator": sphereTMercNearEquator},
 	})
 }
